@@ -51,9 +51,15 @@ func configs() []Config {
 
 func genCase(t *rapid.T) Case {
 	o := mpcl.Opts{MaxStmts: 7, MaxDepth: 3, Helpers: 1, Arrays: true, Loops: true,
-		MulHeavy: rapid.IntRange(0, 9).Draw(t, "mulheavy") < 7, MaxWidth: 72}
+		MulHeavy: rapid.IntRange(0, 9).Draw(t, "mulheavy") < 7, MaxWidth: maxWidth()}
 	p := mpcl.Draw(t, o)
-	return Case{Prog: p, Inputs: mpcl.DrawInputsN(t, p, 16, 64)}
+	// All assignments when the inputs have <= 16 bits (thorough) or <= 11
+	// bits (quick), else 64 vectors.
+	exh := 11
+	if ev.Get(prop).Thorough() {
+		exh = 16
+	}
+	return Case{Prog: p, Inputs: mpcl.DrawInputsN(t, p, exh, 64)}
 }
 
 func gateHash(c *circuit.Circuit) string {
@@ -116,6 +122,8 @@ func run(cs Case) ev.Outcome {
 	cfgs := configs()
 	hashes := map[string]bool{}
 	var first *circuit.Circuit
+	var failing []Config
+	var firstFail string
 	for ci, cfg := range cfgs {
 		params := utils.NewParams()
 		params.OptPruneGates = cfg.Prune
@@ -156,6 +164,7 @@ func run(cs Case) ev.Outcome {
 		} else if circ.Inputs.Size() != first.Inputs.Size() || circ.Outputs.Size() != first.Outputs.Size() {
 			return ev.Fail("signature-differs/"+cfg.String(), "%s: I/O sizes differ from the default configuration\n%s", cfg, src)
 		}
+	vectors:
 		for vi, v := range vecs {
 			got, err := circ.Compute(v.cin)
 			if err != nil {
@@ -167,12 +176,33 @@ func run(cs Case) ev.Outcome {
 					if i < len(got) {
 						g = got[i].Text(16)
 					}
-					return ev.Fail("wrong-result/"+cfg.String(),
-						"%s: inputs %v: result %d = 0x%s, reference 0x%s\n%s",
-						cfg, cs.Inputs[vi], i, g, v.want[i].Text(16), src)
+					failing = append(failing, cfg)
+					if firstFail == "" {
+						firstFail = fmt.Sprintf("%s: inputs %v: result %d = 0x%s, reference 0x%s",
+							cfg, cs.Inputs[vi], i, g, v.want[i].Text(16))
+					}
+					break vectors
 				}
 			}
 		}
+	}
+	if len(failing) > 0 {
+		gmwOnly := true
+		for _, c := range failing {
+			if c.Target != utils.TargetGMW {
+				gmwOnly = false
+			}
+		}
+		f := mpcl.Features(p)
+		sig := "wrong-result/" + failing[0].String()
+		if gmwOnly && f.Div {
+			// Only GMW-target circuits disagree and the program
+			// divides: the GMW target's Goldschmidt divider (see the
+			// open C07 finding) is the only divider-specific code.
+			sig = "gmw-only/program-has-div-or-mod"
+		}
+		return ev.Fail(sig, "%d of %d configurations disagree with the reference; first: %s\n%s",
+			len(failing), len(cfgs), firstFail, src)
 	}
 	f := mpcl.Features(p)
 	classes := f.Classes()
@@ -202,3 +232,12 @@ func TestConfigs(t *testing.T) {
 }
 
 func TestReplay(t *testing.T) { ev.Replay(t, ev.Get(prop)) }
+
+// maxWidth bounds operand widths: GMW-target dividers and Wallace multipliers
+// of 60-70 bits take seconds to build, so the quick tier stays below 48 bits.
+func maxWidth() int {
+	if ev.Get(prop).Thorough() {
+		return 72
+	}
+	return 47
+}
